@@ -97,6 +97,7 @@ type Enc struct {
 	lv       map[ssa.Value]*lvalue
 	override map[ssa.Value]string
 	closures map[ssa.Value]*ssa.MakeClosure
+	elemRange map[string]types.Type
 	unescaped map[ssa.Value]bool
 
 	keySort  map[string]string
@@ -156,6 +157,9 @@ func (e *Enc) resetPass() {
 	e.lv = map[ssa.Value]*lvalue{}
 	e.override = map[ssa.Value]string{}
 	e.closures = map[ssa.Value]*ssa.MakeClosure{}
+	if e.elemRange == nil {
+		e.elemRange = map[string]types.Type{}
+	}
 	e.in = map[*ssa.BasicBlock]*State{}
 	e.out = map[*ssa.BasicBlock]*State{}
 	e.reach = map[*ssa.BasicBlock]string{}
@@ -249,7 +253,21 @@ func (e *Enc) ordinal(kind string) int {
 // ---------- state ----------
 
 func (e *Enc) isHeapKey(k string) bool {
+	if strings.HasPrefix(k, "F:") && e.isStableKey(k) {
+		return false // fields declared stable are written only by their listed writers (checked statically)
+	}
 	return strings.HasPrefix(k, "F:") || strings.HasPrefix(k, "E:") || strings.HasPrefix(k, "C:") || strings.HasPrefix(k, "MD:") || strings.HasPrefix(k, "MV:")
+}
+
+func (e *Enc) isStableKey(k string) bool {
+	for tn, sc := range e.w.CS.Structs {
+		for f := range sc.Stable {
+			if k == "F:"+tn+"."+f {
+				return true
+			}
+		}
+	}
+	return false
 }
 
 func (e *Enc) regKey(key, sort string) {
@@ -262,7 +280,10 @@ func (e *Enc) regKey(key, sort string) {
 
 func (e *Enc) initName(key string) string {
 	n := q(key + "@0")
-	e.declare(n, e.keySort[key])
+	if !e.declSeen[n] {
+		e.declare(n, e.keySort[key])
+		e.keyInvariant(key, n)
+	}
 	return n
 }
 
@@ -288,6 +309,7 @@ func (e *Enc) set(st *State, key, sort, term string) {
 func (e *Enc) havocKey(st *State, key string) string {
 	n := e.fresh(key)
 	e.declare(n, e.keySort[key])
+	e.keyInvariant(key, n)
 	st.m[key] = n
 	return n
 }
@@ -312,7 +334,41 @@ func (e *Enc) fieldKey(structT types.Type, f *types.Var) (string, string) {
 }
 func (e *Enc) elemsKey(elem types.Type) (string, string) {
 	s := e.st.sortOf(elem)
-	return "E:" + s, fmt.Sprintf("(Array Ref (Array %s %s))", e.st.idx(), s)
+	k := "E:" + s
+	if e.mode == ModeInt && isInt(elem) {
+		// integer element types share the sort Int; keep them apart so range facts can be attached
+		k = "E:Int:" + typeStr(elem.Underlying())
+		if _, ok := e.elemRange[k]; !ok {
+			e.elemRange[k] = elem
+		}
+	}
+	return k, fmt.Sprintf("(Array Ref (Array %s %s))", e.st.idx(), s)
+}
+
+// slGet returns the term for element i of a slice with backing contents arr and offset off, through an
+// uninterpreted accessor (defined by an axiom) so that quantified facts about slices have arithmetic-free triggers.
+func (e *Enc) slGet(elem types.Type, arr, off, i string) string {
+	s := e.st.sortOf(elem)
+	if s == e.st.byteSort() && isInt(elem) {
+		if w, _ := intInfo(elem); w == 8 {
+			return fmt.Sprintf("(sl.get.byte %s %s %s)", arr, off, i)
+		}
+	}
+	fn := q("sl.get:" + s)
+	idx := e.st.idx()
+	e.declareRaw(fn, fmt.Sprintf("(declare-fun %s ((Array %s %s) %s %s) %s)\n(assert (forall ((a (Array %s %s)) (o %s) (i %s)) (! (= (%s a o i) (select a (idx.add o i))) :pattern ((%s a o i)))))", fn, idx, s, idx, idx, s, idx, s, idx, idx, fn, fn))
+	return fmt.Sprintf("(%s %s %s %s)", fn, arr, off, i)
+}
+
+// keyInvariant states type invariants of a fresh (unconstrained) version of a state key.
+func (e *Enc) keyInvariant(key, name string) {
+	if t, ok := e.elemRange[key]; ok {
+		w, signed := intInfo(t)
+		if w <= 16 && !signed {
+			r := e.st.rangeOf("(select (select "+name+" r) i)", t)
+			e.assume(fmt.Sprintf("(forall ((r Ref) (i Int)) (! %s :pattern ((select (select %s r) i))))", r, name))
+		}
+	}
 }
 func (e *Enc) cellKey(t types.Type) (string, string) {
 	s := e.st.sortOf(t)
